@@ -823,3 +823,311 @@ example : M44.affine (⟨2, 0, 0, 0, 0, 1, 0, 0, 0, 0, 1, 0, 3, 4, 5, 1⟩ : M44
   norm_num [M44.affine, M44.upper, M33.det, M33.adj]
 example : Gen.C07.M44.inverseT (1 / 1024 : ℚ) (fun _ => 0) (fun m => m) ⟨1, 2, 3, 0, 2, 4, 6, 0, 0, 1, 5, 0, 7, 8, 9, 1⟩ = .error Exc.invalidArgument := by
   rw [M44_inverseT_error_iff]; norm_num [M44.affine, M44.upper, M33.det, M33.guardsPass, M33.adj]
+
+/-! ## Frustum: every `…Exc` member against its unchecked twin
+
+A frustum is its six scalars `n f l r t b` (near, far, left, right, top, bottom) and a concrete `orthographic` flag
+(suffix `_persp` / `_ortho`; members that do not read the flag are extracted once).  Every guard in ImathFrustum.h is
+the strict form `abs (d) < 1 && abs (n) > max * abs (d)` = `guardGt tmax n d`; by `guardGt_iff` it fires exactly when
+`d = 0 ≠ n` or the EXACT quotient `|n / d| > tmax`; it never fires for `|d| ≥ 1` nor for `0 / 0`. -/
+
+/-- `.error k ↔ k = domainError ∧ guards`: collapses the extracted guard chain into one proposition -/
+macro "exc_err_tac " "[" ds:ident,* "]" : tactic =>
+  `(tactic| (simp only [$[$ds:ident],*, sabs_eq_abs, ite_and_collapse, ite_or_collapse, ite_guard_collapse, ite_err_ok_error_iff, ite_ok_err_error_iff,
+      guardGt, guardGe, guardGe']))
+/-- `checked = .ok y → unchecked = y`: every returning leaf of the checked tree is the unchecked expression -/
+macro "exc_ok_tac " h:ident y:ident "[" ds:ident,* "]" : tactic =>
+  `(tactic| (refine unexc_self_ok ?_ $y $h; pair_tac [$[$ds:ident],*]))
+
+theorem Frustum_aspectExc_ok (tmax n f l r t b y : α) (h : Gen.C07.Frustum.aspectExc tmax n f l r t b = .ok y) :
+    Gen.C07.Frustum.aspect n f l r t b = y := by
+  exc_ok_tac h y [Gen.C07.Frustum.aspectExc, Gen.C07.Frustum.aspect]
+
+theorem Frustum_aspectExc_error (tmax n f l r t b : α) (k : Exc) :
+    Gen.C07.Frustum.aspectExc tmax n f l r t b = .error k ↔ (k = Exc.domainError ∧ guardGt tmax (r - l) (t - b)) := by
+  exc_err_tac [Gen.C07.Frustum.aspectExc]
+  tauto
+
+/-- tightness: `aspectExc` throws only when `top = bottom ≠`… precisely: `top − bottom = 0 ≠ right − left`, or the exact
+aspect ratio exceeds `tmax` in magnitude.  NOTE (observation, reported): for `right = left ∧ top = bottom` the ratio is `0 / 0`,
+"undefined", and `aspectExc` does NOT throw although it is documented to "throw an exception if the aspect ratio is undefined". -/
+theorem Frustum_aspectExc_tight (tmax n f l r t b : α) (k : Exc) (h : Gen.C07.Frustum.aspectExc tmax n f l r t b = .error k) :
+    |t - b| < 1 ∧ ((t - b = 0 ∧ r - l ≠ 0) ∨ (t - b ≠ 0 ∧ tmax < |Gen.C07.Frustum.aspect n f l r t b|)) := by
+  have := ((Frustum_aspectExc_error tmax n f l r t b k).mp h).2
+  rwa [guardGt_iff] at this
+
+theorem Frustum_aspectExc_never (tmax n f l r t b : α) (h : 1 ≤ |t - b| ∨ (t - b ≠ 0 ∧ |(r - l) / (t - b)| ≤ tmax)) :
+    Gen.C07.Frustum.aspectExc tmax n f l r t b = .ok (Gen.C07.Frustum.aspect n f l r t b) := by
+  rcases except_cases (Gen.C07.Frustum.aspectExc tmax n f l r t b) with ⟨y, hy⟩ | ⟨k, hk⟩
+  · rw [hy, Frustum_aspectExc_ok tmax n f l r t b y hy]
+  · exfalso
+    have hg := ((Frustum_aspectExc_error tmax n f l r t b k).mp hk).2
+    rcases h with h | ⟨h0, h1⟩
+    · exact not_guardGt_of_one_le _ _ _ h hg
+    · exact not_guardGt_of_le _ _ _ h0 h1 hg
+
+/-- the degenerate frustum `right = left`, `top = bottom`: `0 / 0`, not flagged by `aspectExc` -/
+theorem Frustum_aspectExc_zero_over_zero (tmax n f l t : α) :
+    Gen.C07.Frustum.aspectExc tmax n f l l t t = .ok (Gen.C07.Frustum.aspect n f l l t t) := by
+  simp [Gen.C07.Frustum.aspectExc, Gen.C07.Frustum.aspect, sabs]
+
+example : (1 : ℚ) ≤ |(1 : ℚ) - (-1)| := by norm_num
+example : Gen.C07.Frustum.aspectExc (1048576 : ℚ) 1 2 (-1) 1 (1 / 4194304) 0 = .error Exc.domainError := by
+  rw [Frustum_aspectExc_error]; norm_num [guardGt, abs_of_nonneg]
+
+/-! ### localToScreen / projectPointToScreen -/
+
+theorem Frustum_localToScreenExc_ok (tmax n f l r t b : α) (p y : V2 α)
+    (h : Gen.C07.Frustum.localToScreenExc tmax n f l r t b p = .ok y) : Gen.C07.Frustum.localToScreen n f l r t b p = y := by
+  exc_ok_tac h y [Gen.C07.Frustum.localToScreenExc, Gen.C07.Frustum.localToScreen]
+
+theorem Frustum_localToScreenExc_error (tmax n f l r t b : α) (p : V2 α) (k : Exc) :
+    Gen.C07.Frustum.localToScreenExc tmax n f l r t b p = .error k ↔
+      (k = Exc.domainError ∧ (guardGt tmax (l - 2 * p.x + r) (l - r) ∨ guardGt tmax (b - 2 * p.y + t) (b - t))) := by
+  exc_err_tac [Gen.C07.Frustum.localToScreenExc]
+  tauto
+
+/-- the point handed to `localToScreen`: the point itself for `z = 0` (or an orthographic frustum), else its perspective projection -/
+def perspPoint (n : α) (p : V3 α) : V2 α := if p.z = 0 then ⟨p.x, p.y⟩ else ⟨p.x * n / -p.z, p.y * n / -p.z⟩
+
+/-- `projectPointToScreen[Exc]` is `localToScreen[Exc]` of the projected point — for both members of the pair -/
+theorem Frustum_projectPointToScreen_persp (tmax n f l r t b : α) (p : V3 α) :
+    Gen.C07.Frustum.projectPointToScreenExc_persp tmax n f l r t b p = Gen.C07.Frustum.localToScreenExc tmax n f l r t b (perspPoint n p) ∧
+    Gen.C07.Frustum.projectPointToScreen_persp n f l r t b p = Gen.C07.Frustum.localToScreen n f l r t b (perspPoint n p) := by
+  unfold perspPoint
+  by_cases hz : p.z = 0
+  · constructor <;> simp only [Gen.C07.Frustum.projectPointToScreenExc_persp, Gen.C07.Frustum.localToScreenExc,
+      Gen.C07.Frustum.projectPointToScreen_persp, Gen.C07.Frustum.localToScreen, hz, if_true]
+  · constructor <;> simp only [Gen.C07.Frustum.projectPointToScreenExc_persp, Gen.C07.Frustum.localToScreenExc,
+      Gen.C07.Frustum.projectPointToScreen_persp, Gen.C07.Frustum.localToScreen, hz, if_false]
+
+theorem Frustum_projectPointToScreen_ortho (tmax n f l r t b : α) (p : V3 α) :
+    Gen.C07.Frustum.projectPointToScreenExc_ortho tmax n f l r t b p = Gen.C07.Frustum.localToScreenExc tmax n f l r t b ⟨p.x, p.y⟩ ∧
+    Gen.C07.Frustum.projectPointToScreen_ortho n f l r t b p = Gen.C07.Frustum.localToScreen n f l r t b ⟨p.x, p.y⟩ := by
+  constructor <;> simp only [Gen.C07.Frustum.projectPointToScreenExc_ortho, Gen.C07.Frustum.localToScreenExc,
+      Gen.C07.Frustum.projectPointToScreen_ortho, Gen.C07.Frustum.localToScreen]
+
+theorem Frustum_projectPointToScreenExc_ok (tmax n f l r t b : α) (p : V3 α) (y : V2 α) :
+    (Gen.C07.Frustum.projectPointToScreenExc_persp tmax n f l r t b p = .ok y → Gen.C07.Frustum.projectPointToScreen_persp n f l r t b p = y) ∧
+    (Gen.C07.Frustum.projectPointToScreenExc_ortho tmax n f l r t b p = .ok y → Gen.C07.Frustum.projectPointToScreen_ortho n f l r t b p = y) := by
+  rw [(Frustum_projectPointToScreen_persp tmax n f l r t b p).1, (Frustum_projectPointToScreen_persp tmax n f l r t b p).2,
+    (Frustum_projectPointToScreen_ortho tmax n f l r t b p).1, (Frustum_projectPointToScreen_ortho tmax n f l r t b p).2]
+  exact ⟨Frustum_localToScreenExc_ok tmax n f l r t b _ y, Frustum_localToScreenExc_ok tmax n f l r t b _ y⟩
+
+theorem Frustum_projectPointToScreenExc_error (tmax n f l r t b : α) (p : V3 α) (k : Exc) :
+    (Gen.C07.Frustum.projectPointToScreenExc_persp tmax n f l r t b p = .error k ↔
+      (k = Exc.domainError ∧ (guardGt tmax (l - 2 * (perspPoint n p).x + r) (l - r) ∨ guardGt tmax (b - 2 * (perspPoint n p).y + t) (b - t)))) ∧
+    (Gen.C07.Frustum.projectPointToScreenExc_ortho tmax n f l r t b p = .error k ↔
+      (k = Exc.domainError ∧ (guardGt tmax (l - 2 * p.x + r) (l - r) ∨ guardGt tmax (b - 2 * p.y + t) (b - t)))) := by
+  rw [(Frustum_projectPointToScreen_persp tmax n f l r t b p).1, (Frustum_projectPointToScreen_ortho tmax n f l r t b p).1]
+  exact ⟨Frustum_localToScreenExc_error tmax n f l r t b _ k, Frustum_localToScreenExc_error tmax n f l r t b _ k⟩
+
+/-- well-conditioned: a window at least 1 wide and 1 high never throws, for any point -/
+theorem Frustum_localToScreenExc_never (tmax n f l r t b : α) (p : V2 α) (hw : 1 ≤ |l - r|) (hh : 1 ≤ |b - t|) :
+    Gen.C07.Frustum.localToScreenExc tmax n f l r t b p = .ok (Gen.C07.Frustum.localToScreen n f l r t b p) := by
+  rcases except_cases (Gen.C07.Frustum.localToScreenExc tmax n f l r t b p) with ⟨y, hy⟩ | ⟨k, hk⟩
+  · rw [hy, Frustum_localToScreenExc_ok tmax n f l r t b p y hy]
+  · exfalso
+    rcases ((Frustum_localToScreenExc_error tmax n f l r t b p k).mp hk).2 with hg | hg
+    · exact not_guardGt_of_one_le _ _ _ hw hg
+    · exact not_guardGt_of_one_le _ _ _ hh hg
+
+/-! ### projectionMatrix -/
+
+theorem Frustum_projectionMatrixExc_ok (tmax n f l r t b : α) (y : M44 α) :
+    (Gen.C07.Frustum.projectionMatrixExc_persp tmax n f l r t b = .ok y → Gen.C07.Frustum.projectionMatrix_persp n f l r t b = y) ∧
+    (Gen.C07.Frustum.projectionMatrixExc_ortho tmax n f l r t b = .ok y → Gen.C07.Frustum.projectionMatrix_ortho n f l r t b = y) := by
+  constructor <;> intro h
+  · exc_ok_tac h y [Gen.C07.Frustum.projectionMatrixExc_persp, Gen.C07.Frustum.projectionMatrix_persp]
+  · exc_ok_tac h y [Gen.C07.Frustum.projectionMatrixExc_ortho, Gen.C07.Frustum.projectionMatrix_ortho]
+
+/-- the three guards shared by both kinds of frustum: `(r+l)/(r−l)`, `(t+b)/(t−b)`, `(f+n)/(f−n)` -/
+abbrev projGuards (tmax n f l r t b : α) : Prop :=
+  guardGt tmax (r + l) (r - l) ∨ guardGt tmax (t + b) (t - b) ∨ guardGt tmax (f + n) (f - n)
+
+/-- perspective: additionally `−2fn/(f−n)`, `2n/(r−l)`, `2n/(t−b)` (the header calls these "impossible: already tested above";
+they are not implied by the first three, but that does not matter for the pair) -/
+theorem Frustum_projectionMatrixExc_persp_error (tmax n f l r t b : α) (k : Exc) :
+    Gen.C07.Frustum.projectionMatrixExc_persp tmax n f l r t b = .error k ↔
+      (k = Exc.domainError ∧ (projGuards tmax n f l r t b ∨ guardGt tmax (-2 * f * n) (f - n) ∨
+        guardGt tmax (2 * n) (r - l) ∨ guardGt tmax (2 * n) (t - b))) := by
+  have hk : errIs Exc.domainError (Gen.C07.Frustum.projectionMatrixExc_persp tmax n f l r t b) = true := by
+    pair_tac [Gen.C07.Frustum.projectionMatrixExc_persp]
+  rw [error_iff_of_errIs hk]
+  refine and_congr_right fun _ => bool_iff_of_eq_decide ?_
+  -- Boolean reflection: both sides become Boolean expressions over the nine comparisons, compared by `decide`
+  simp only [Gen.C07.Frustum.projectionMatrixExc_persp, apply_ite errB, errB_ok, errB_error, sabs_eq_abs, guardGt, projGuards]
+  simp only [Bool.decide_or, Bool.decide_and, ← Bool.cond_decide]
+  generalize decide (|r - l| < 1) = a1
+  generalize decide (|t - b| < 1) = a2
+  generalize decide (|f - n| < 1) = a3
+  generalize decide (tmax * |r - l| < |r + l|) = b1
+  generalize decide (tmax * |t - b| < |t + b|) = b2
+  generalize decide (tmax * |f - n| < |f + n|) = b3
+  generalize decide (tmax * |f - n| < |-2 * f * n|) = b4
+  generalize decide (tmax * |r - l| < |2 * n|) = b5
+  generalize decide (tmax * |t - b| < |2 * n|) = b6
+  revert a1 a2 a3 b1 b2 b3 b4 b5 b6
+  decide
+
+/-- orthographic: additionally `2/(r−l)`, `2/(t−b)`, `2/(f−n)` -/
+theorem Frustum_projectionMatrixExc_ortho_error (tmax n f l r t b : α) (k : Exc) :
+    Gen.C07.Frustum.projectionMatrixExc_ortho tmax n f l r t b = .error k ↔
+      (k = Exc.domainError ∧ (projGuards tmax n f l r t b ∨ guardGt tmax 2 (r - l) ∨ guardGt tmax 2 (t - b) ∨ guardGt tmax 2 (f - n))) := by
+  have hk : errIs Exc.domainError (Gen.C07.Frustum.projectionMatrixExc_ortho tmax n f l r t b) = true := by
+    pair_tac [Gen.C07.Frustum.projectionMatrixExc_ortho]
+  rw [error_iff_of_errIs hk]
+  refine and_congr_right fun _ => bool_iff_of_eq_decide ?_
+  simp only [Gen.C07.Frustum.projectionMatrixExc_ortho, apply_ite errB, errB_ok, errB_error, sabs_eq_abs, abs_two, guardGt, projGuards]
+  simp only [Bool.decide_or, Bool.decide_and, ← Bool.cond_decide, abs_two]
+  generalize decide (|r - l| < 1) = a1
+  generalize decide (|t - b| < 1) = a2
+  generalize decide (|f - n| < 1) = a3
+  generalize decide (tmax * |r - l| < |r + l|) = b1
+  generalize decide (tmax * |t - b| < |t + b|) = b2
+  generalize decide (tmax * |f - n| < |f + n|) = b3
+  generalize decide (tmax * |r - l| < 2) = b4
+  generalize decide (tmax * |t - b| < 2) = b5
+  generalize decide (tmax * |f - n| < 2) = b6
+  revert a1 a2 a3 b1 b2 b3 b4 b5 b6
+  decide
+
+/-- well-conditioned: a frustum at least 1 wide, 1 high and 1 deep never throws -/
+theorem Frustum_projectionMatrixExc_never (tmax n f l r t b : α) (hw : 1 ≤ |r - l|) (hh : 1 ≤ |t - b|) (hd : 1 ≤ |f - n|) :
+    Gen.C07.Frustum.projectionMatrixExc_persp tmax n f l r t b = .ok (Gen.C07.Frustum.projectionMatrix_persp n f l r t b) ∧
+    Gen.C07.Frustum.projectionMatrixExc_ortho tmax n f l r t b = .ok (Gen.C07.Frustum.projectionMatrix_ortho n f l r t b) := by
+  have hp : ¬ projGuards tmax n f l r t b := by
+    rintro (h | h | h)
+    · exact not_guardGt_of_one_le _ _ _ hw h
+    · exact not_guardGt_of_one_le _ _ _ hh h
+    · exact not_guardGt_of_one_le _ _ _ hd h
+  constructor
+  · rcases except_cases (Gen.C07.Frustum.projectionMatrixExc_persp tmax n f l r t b) with ⟨y, hy⟩ | ⟨k, hk⟩
+    · rw [hy, (Frustum_projectionMatrixExc_ok tmax n f l r t b y).1 hy]
+    · exfalso
+      rcases ((Frustum_projectionMatrixExc_persp_error tmax n f l r t b k).mp hk).2 with h | h | h | h
+      · exact hp h
+      · exact not_guardGt_of_one_le _ _ _ hd h
+      · exact not_guardGt_of_one_le _ _ _ hw h
+      · exact not_guardGt_of_one_le _ _ _ hh h
+  · rcases except_cases (Gen.C07.Frustum.projectionMatrixExc_ortho tmax n f l r t b) with ⟨y, hy⟩ | ⟨k, hk⟩
+    · rw [hy, (Frustum_projectionMatrixExc_ok tmax n f l r t b y).2 hy]
+    · exfalso
+      rcases ((Frustum_projectionMatrixExc_ortho_error tmax n f l r t b k).mp hk).2 with h | h | h | h
+      · exact hp h
+      · exact not_guardGt_of_one_le _ _ _ hw h
+      · exact not_guardGt_of_one_le _ _ _ hh h
+      · exact not_guardGt_of_one_le _ _ _ hd h
+
+/-- the default frustum (near 0.1, far 1000, window [−1,1]²) is well-conditioned -/
+example : (1 : ℚ) ≤ |(1 : ℚ) - (-1)| ∧ (1 : ℚ) ≤ |(1000 : ℚ) - 1 / 10| := by norm_num [abs_of_nonneg]
+
+/-! ### depth maps -/
+
+theorem Frustum_normalizedZToDepthExc_ok (tmax n f l r t b z y : α) :
+    (Gen.C07.Frustum.normalizedZToDepthExc_persp tmax n f l r t b z = .ok y → Gen.C07.Frustum.normalizedZToDepth_persp n f l r t b z = y) ∧
+    Gen.C07.Frustum.normalizedZToDepthExc_ortho n f l r t b z = Gen.C07.Frustum.normalizedZToDepth_ortho n f l r t b z := by
+  constructor
+  · intro h
+    exc_ok_tac h y [Gen.C07.Frustum.normalizedZToDepthExc_persp, Gen.C07.Frustum.normalizedZToDepth_persp]
+  · rfl
+
+theorem Frustum_normalizedZToDepthExc_error (tmax n f l r t b z : α) (k : Exc) :
+    Gen.C07.Frustum.normalizedZToDepthExc_persp tmax n f l r t b z = .error k ↔
+      (k = Exc.domainError ∧ guardGt tmax (2 * f * n) ((z * 2 - 1) * (f - n) - f - n)) := by
+  exc_err_tac [Gen.C07.Frustum.normalizedZToDepthExc_persp]
+  tauto
+
+/-- `ZToDepth[Exc] (zval, zmin, zmax)` for concrete integer arguments is `normalizedZToDepth[Exc]` of the exact fraction:
+`(5 − 0)/10`; `zval = 12 > zmax + 1` wraps to `2`; `zmax = zmin` is the failure case: the checked form always throws,
+the unchecked form divides by `T (0)` -/
+theorem Frustum_ZToDepth_concrete (tmax n f l r t b : α) :
+    Gen.C07.Frustum.ZToDepthExc_5_0_10_persp tmax n f l r t b = Gen.C07.Frustum.normalizedZToDepthExc_persp tmax n f l r t b ((5 - 0) / 10) ∧
+    Gen.C07.Frustum.ZToDepth_5_0_10_persp n f l r t b = Gen.C07.Frustum.normalizedZToDepth_persp n f l r t b ((5 - 0) / 10) ∧
+    Gen.C07.Frustum.ZToDepthExc_5_0_10_ortho n f l r t b = Gen.C07.Frustum.ZToDepth_5_0_10_ortho n f l r t b ∧
+    Gen.C07.Frustum.ZToDepthExc_12_0_10_persp tmax n f l r t b = Gen.C07.Frustum.normalizedZToDepthExc_persp tmax n f l r t b ((2 - 0) / 10) ∧
+    Gen.C07.Frustum.ZToDepth_12_0_10_persp n f l r t b = Gen.C07.Frustum.normalizedZToDepth_persp n f l r t b ((2 - 0) / 10) ∧
+    Gen.C07.Frustum.ZToDepthExc_3_7_7_persp n f l r t b = .error Exc.domainError ∧
+    Gen.C07.Frustum.ZToDepth_3_7_7_persp n f l r t b = Gen.C07.Frustum.normalizedZToDepth_persp n f l r t b ((3 - 7) / 0) := by
+  refine ⟨?_, ?_, ?_, ?_, ?_, ?_, ?_⟩ <;>
+    simp only [Gen.C07.Frustum.ZToDepthExc_5_0_10_persp, Gen.C07.Frustum.normalizedZToDepthExc_persp, Gen.C07.Frustum.ZToDepth_5_0_10_persp,
+      Gen.C07.Frustum.normalizedZToDepth_persp, Gen.C07.Frustum.ZToDepthExc_5_0_10_ortho, Gen.C07.Frustum.ZToDepth_5_0_10_ortho,
+      Gen.C07.Frustum.ZToDepthExc_12_0_10_persp, Gen.C07.Frustum.ZToDepth_12_0_10_persp, Gen.C07.Frustum.ZToDepthExc_3_7_7_persp,
+      Gen.C07.Frustum.ZToDepth_3_7_7_persp]
+
+theorem Frustum_ZToDepthExc_ok (tmax n f l r t b y : α) :
+    (Gen.C07.Frustum.ZToDepthExc_5_0_10_persp tmax n f l r t b = .ok y → Gen.C07.Frustum.ZToDepth_5_0_10_persp n f l r t b = y) ∧
+    (Gen.C07.Frustum.ZToDepthExc_12_0_10_persp tmax n f l r t b = .ok y → Gen.C07.Frustum.ZToDepth_12_0_10_persp n f l r t b = y) := by
+  constructor <;> intro h
+  · exc_ok_tac h y [Gen.C07.Frustum.ZToDepthExc_5_0_10_persp, Gen.C07.Frustum.ZToDepth_5_0_10_persp]
+  · exc_ok_tac h y [Gen.C07.Frustum.ZToDepthExc_12_0_10_persp, Gen.C07.Frustum.ZToDepth_12_0_10_persp]
+
+/-! ### screenRadius / worldRadius: `if (abs (d) > 1 || abs (n) < max * abs (d)) return …; else throw` -/
+
+theorem Frustum_screenRadiusExc_ok (tmax n f l r t b : α) (p : V3 α) (radius y : α)
+    (h : Gen.C07.Frustum.screenRadiusExc tmax n f l r t b p radius = .ok y) : Gen.C07.Frustum.screenRadius n f l r t b p radius = y := by
+  exc_ok_tac h y [Gen.C07.Frustum.screenRadiusExc, Gen.C07.Frustum.screenRadius]
+
+theorem Frustum_screenRadiusExc_error (tmax n f l r t b : α) (p : V3 α) (radius : α) (k : Exc) :
+    Gen.C07.Frustum.screenRadiusExc tmax n f l r t b p radius = .error k ↔ (k = Exc.domainError ∧ guardGe' tmax (-n) p.z) := by
+  exc_err_tac [Gen.C07.Frustum.screenRadiusExc, not_or, not_lt]
+  tauto
+
+theorem Frustum_worldRadiusExc_ok (tmax n f l r t b : α) (p : V3 α) (radius y : α)
+    (h : Gen.C07.Frustum.worldRadiusExc tmax n f l r t b p radius = .ok y) : Gen.C07.Frustum.worldRadius n f l r t b p radius = y := by
+  exc_ok_tac h y [Gen.C07.Frustum.worldRadiusExc, Gen.C07.Frustum.worldRadius]
+
+theorem Frustum_worldRadiusExc_error (tmax n f l r t b : α) (p : V3 α) (radius : α) (k : Exc) :
+    Gen.C07.Frustum.worldRadiusExc tmax n f l r t b p radius = .error k ↔ (k = Exc.domainError ∧ guardGe' tmax p.z (-n)) := by
+  exc_err_tac [Gen.C07.Frustum.worldRadiusExc, not_or, not_lt]
+  tauto
+
+/-- tightness and "never" for the two radius functions: they throw exactly when the divisor is at most 1 in magnitude and is zero
+or the exact quotient is out of range (`p.z = 0` always throws in `screenRadiusExc`, `near = 0` in `worldRadiusExc`) -/
+theorem Frustum_radiusExc_tight (tmax n f l r t b : α) (p : V3 α) (radius : α) (k : Exc) :
+    (Gen.C07.Frustum.screenRadiusExc tmax n f l r t b p radius = .error k → |p.z| ≤ 1 ∧ (p.z = 0 ∨ tmax ≤ |-n / p.z|)) ∧
+    (Gen.C07.Frustum.worldRadiusExc tmax n f l r t b p radius = .error k → |-n| ≤ 1 ∧ (-n = 0 ∨ tmax ≤ |p.z / -n|)) := by
+  constructor <;> intro h
+  · exact (guardGe'_iff _ _ _).mp ((Frustum_screenRadiusExc_error tmax n f l r t b p radius k).mp h).2
+  · exact (guardGe'_iff _ _ _).mp ((Frustum_worldRadiusExc_error tmax n f l r t b p radius k).mp h).2
+
+theorem Frustum_screenRadiusExc_never (tmax n f l r t b : α) (p : V3 α) (radius : α)
+    (h : 1 < |p.z| ∨ (p.z ≠ 0 ∧ |-n / p.z| < tmax)) :
+    Gen.C07.Frustum.screenRadiusExc tmax n f l r t b p radius = .ok (Gen.C07.Frustum.screenRadius n f l r t b p radius) := by
+  rcases except_cases (Gen.C07.Frustum.screenRadiusExc tmax n f l r t b p radius) with ⟨y, hy⟩ | ⟨k, hk⟩
+  · rw [hy, Frustum_screenRadiusExc_ok tmax n f l r t b p radius y hy]
+  · exfalso
+    have hg := ((Frustum_screenRadiusExc_error tmax n f l r t b p radius k).mp hk).2
+    rcases h with h | ⟨h0, h1⟩
+    · exact not_guardGe'_of_one_lt _ _ _ h hg
+    · exact not_guardGe'_of_lt _ _ _ h0 h1 hg
+
+theorem Frustum_worldRadiusExc_never (tmax n f l r t b : α) (p : V3 α) (radius : α)
+    (h : 1 < |-n| ∨ (-n ≠ 0 ∧ |p.z / -n| < tmax)) :
+    Gen.C07.Frustum.worldRadiusExc tmax n f l r t b p radius = .ok (Gen.C07.Frustum.worldRadius n f l r t b p radius) := by
+  rcases except_cases (Gen.C07.Frustum.worldRadiusExc tmax n f l r t b p radius) with ⟨y, hy⟩ | ⟨k, hk⟩
+  · rw [hy, Frustum_worldRadiusExc_ok tmax n f l r t b p radius y hy]
+  · exfalso
+    have hg := ((Frustum_worldRadiusExc_error tmax n f l r t b p radius k).mp hk).2
+    rcases h with h | ⟨h0, h1⟩
+    · exact not_guardGe'_of_one_lt _ _ _ h hg
+    · exact not_guardGe'_of_lt _ _ _ h0 h1 hg
+
+example : (1 : ℚ) < |(-5 : ℚ)| := by norm_num
+example : ((1 / 2 : ℚ) ≠ 0 ∧ |(-(1 / 10) : ℚ) / (1 / 2)| < 1048576) := by norm_num [abs_of_nonpos]
+
+/-! ### set (near, far, fovx, fovy, aspect) / setExc -/
+
+theorem Frustum_setFovExc_ok (tan : α → α) (n f fovx fovy aspect : α) (y : α × α × α × α × α × α × Bool)
+    (h : Gen.C07.Frustum.setFovExc tan n f fovx fovy aspect = .ok y) : Gen.C07.Frustum.setFov tan n f fovx fovy aspect = y := by
+  simp only [Gen.C07.Frustum.setFovExc, Gen.C07.Frustum.setFov] at h ⊢
+  split_ifs at h ⊢ <;> exact Except.ok.inj h
+
+/-- `setExc` throws `std::domain_error` exactly when both `fovx` and `fovy` are non-zero (documented: "if fovx and/or fovy are
+invalid"); `set` then silently uses `fovx` -/
+theorem Frustum_setFovExc_error (tan : α → α) (n f fovx fovy aspect : α) (k : Exc) :
+    Gen.C07.Frustum.setFovExc tan n f fovx fovy aspect = .error k ↔ (k = Exc.domainError ∧ fovx ≠ 0 ∧ fovy ≠ 0) := by
+  simp only [Gen.C07.Frustum.setFovExc]
+  split_ifs with h1 h2 <;> simp_all [eq_comm (a := Exc.domainError)]
+
+end ImathVerif.C07
